@@ -21,6 +21,10 @@
 #include <dune/common/simd/simd.hh>
 #include <dune/common/math.hh>
 
+#ifndef C09_NESTED_SV_LOGIC
+#define C09_NESTED_SV_LOGIC 0
+#endif
+
 using namespace Dune;
 typedef std::vector<std::string> Tok;
 
@@ -153,9 +157,10 @@ static std::string run(const Tok& t)
   C09_BIN("ge", >=, M, true)
   C09_BIN("eq", ==, M, true)
   C09_BIN("ne", !=, M, true)
-  // `scalar && nested-vector` does not compile (loop.hh:300 takes Simd::Mask<T> where Simd::Scalar<T> is meant): not exercised
-  C09_BIN2("land", &&, M, true, !nested)
-  C09_BIN2("lor", ||, M, true, !nested)
+  // `scalar && nested-vector` did not compile while loop.hh declared the scalar-first overload with Simd::Mask<T> (F-C09-4):
+  // exercised only when the compile probe harness/C09/probe_nested_sv.cc succeeds (-DC09_NESTED_SV_LOGIC=1)
+  C09_BIN2("land", &&, M, true, (!nested || C09_NESTED_SV_LOGIC))
+  C09_BIN2("lor", ||, M, true, (!nested || C09_NESTED_SV_LOGIC))
 #undef C09_BIN
 #undef C09_BIN2
 
